@@ -635,6 +635,12 @@ def _balanced(txt, i):
     return len(txt)
 
 
+def _squash(txt):
+    """remove white space outside string literals only (`"6 4"` is not `"64"`)"""
+    return ''.join(part if part.startswith('"') else re.sub(r'\s+', '', part)
+                   for part in re.split(r'("(?:[^"\\]|\\.)*")', txt))
+
+
 def config_inventory():
     """Everything that makes the compiled code depend on HOW it is built: every `cfg(..)`, `cfg_attr(..)`,
     `cfg!(..)`, `env!`, `option_env!`, `include*!`, `compile_error!` in every source file of the crate
@@ -653,7 +659,7 @@ def config_inventory():
         code = strip_comments(open(path, errors='replace').read())
         for m in re.finditer(r'\b(%s)\s*(!?)\s*\(' % '|'.join(CONFIG_HEADS), code):
             j = _balanced(code, m.end() - 1)
-            inv.append('%s::%s%s%s' % (rel, m.group(1), m.group(2), re.sub(r'\s+', '', code[m.end() - 1:j])))
+            inv.append('%s::%s%s%s' % (rel, m.group(1), m.group(2), _squash(code[m.end() - 1:j])))
         for m in re.finditer(r'\btarget_(?:arch|os|feature|pointer_width|endian|env|family|has_atomic)\b|\bdebug_assertions\b|\boverflow_checks\b', code):
             inv.append('%s::token::%s' % (rel, m.group(0)))
     ct = os.path.join(root, 'Cargo.toml')
